@@ -55,15 +55,17 @@ def checkList : List Nat → List Nat → PRes
   | _ :: _, [] => .panic
   | g :: gs, e :: es => if g == e then checkList gs es else .bad
 
-/-- `IsCanonicalClientParamsValid` -/
+/-- `IsCanonicalClientParamsValid`: scalars, then the proof specs (length first, then element-wise), then the
+    upgrade path (length first, then element-wise) -/
 def paramsCheck (p : CParams) (frozen : Bool) : PRes :=
   if p.trustLevel != 0 then .bad
   else if p.trusting != 0 then .bad
   else if p.unbonding != 0 then .bad
   else if p.drift != 0 then .bad
   else if frozen then .bad
+  else if p.specs.length != expSpecs.length then .bad
   else match checkList p.specs expSpecs with
-    | .ok => checkList p.path expPath
+    | .ok => if p.path.length != expPath.length then .bad else checkList p.path expPath
     | r => r
 
 structure Client where
@@ -117,7 +119,7 @@ def getDesc (s : St) (ra h : Nat) : Option Desc := s.descs.find? (fun d => d.ra 
 inductive LErr
   | notFound | rollappNotFound | alreadyExists | params | paramsPanic | noState | noMatch
   | root | ts | nextVal | internal
-  | proposerMismatch | nonSequencer | unbonded | revision | misbehaviourDisabled | nestedDisabled
+  | proposerMismatch | nonSequencer | foreignSequencer | validatorSet | unbonded | revision | misbehaviourDisabled | nestedDisabled
   | chanExists | chanUnknown | ibc | noSigner | unbondBlocked | forkNoClient | forkNoCons | resolveHeight | staleDesc
   | core (e : Core.Err)
   deriving DecidableEq, Repr, Inhabited
@@ -162,24 +164,12 @@ def heightsOf (st : Core.SInfo) : List Nat := (List.range (st.last + 1 - st.star
 def validateStateInfo (s : St) (cl : Client) (ra : Nat) (st : Core.SInfo) : Bool × Option LErr :=
   validateRange s cl ra st (heightsOf st) false
 
-/-- decimal digits, most significant first (fuel-based so that it reduces in proofs) -/
-def digitsAux : Nat → Nat → List Nat → List Nat
-  | 0, _, acc => acc
-  | fuel + 1, n, acc => if n < 10 then n :: acc else digitsAux fuel (n / 10) (n % 10 :: acc)
-def digits (n : Nat) : List Nat := digitsAux 40 n []
-
-def lexLt : List Nat → List Nat → Bool
-  | [], [] => false
-  | [], _ :: _ => true
-  | _ :: _, [] => false
-  | a :: as, b :: bs => if a < b then true else if b < a then false else lexLt as bs
-
-/-- `GetFirstConsensusStateHeight`: the first consensus state in *store iteration order*, i.e. the one
-    whose height is smallest as a decimal string ("1-10" sorts before "1-9") -/
+/-- `GetFirstConsensusStateHeight`: the lowest height with a consensus state (the client's iteration keys are
+    walked in numerical order), 0 if there is none -/
 def firstConsHeight (cl : Client) : Nat :=
   match cl.cons with
   | [] => 0
-  | x :: xs => (xs.foldl (fun best y => if lexLt (digits y.1) (digits best) then y.1 else best) x.1)
+  | x :: xs => xs.foldl (fun best y => min best y.1) x.1
 
 /-- the loop of `validClient`: state infos from the latest down, stop after the first one that starts
     below the first consensus state -/
@@ -220,12 +210,19 @@ structure Hdr where
   propSig : Nat          -- ValidatorSet.Proposer
   propData : Nat         -- Header.ProposerAddress
   rev : Nat              -- Header.Version.App
+  sole : Bool            -- Header.ValidatorsHash is the hash of the single-validator set of the sequencer `propData`
   deriving DecidableEq, Repr, Inhabited
 
 /-- `SaveSigner`: the key set gets the triple, the map entry of (client, height) is overwritten -/
 def saveSigner (s : St) (c h : Nat) (a : Addr) : St :=
   { s with signerSet := if s.signerSet.contains (a, c, h) then s.signerSet else s.signerSet ++ [(a, c, h)],
            signerMap := (s.signerMap.filter (fun x => !(x.1 == c && x.2.1 == h))) ++ [(c, h, a)] }
+
+/-- the client is canonical for a rollapp other than the sequencer's -/
+def foreignSeq (s : St) (c : Nat) (q : Core.Seq) : Bool :=
+  match lookup s.c2r c with
+  | some r => q.rollapp != r
+  | none => false
 
 /-- `HandleMsgUpdateClient` for a header -/
 def handleUpdate (s : St) (c : Nat) (hd : Hdr) : St × Option LErr :=
@@ -234,6 +231,10 @@ def handleUpdate (s : St) (c : Nat) (hd : Hdr) : St × Option LErr :=
   match Core.getSeq s.core hd.propData with
   | none => if canonical then (s, some .nonSequencer) else (s, none)
   | some q =>
+    -- a canonical client is only updated with headers of sequencers of its own rollapp
+    if foreignSeq s c q then (s, some .foreignSequencer) else
+    -- … and only with headers whose validator set is that sequencer alone
+    if canonical && !hd.sole then (s, some .validatorSet) else
     if !q.bonded then (s, some .unbonded) else
     match Core.getRa s.core q.rollapp with
     | none => (s, some .internal)
@@ -309,7 +310,7 @@ def misbehaviour (s : St) (c : Nat) (k : MKind) (ibc : Bool) : St × Res :=
     let exec : St × Res := if ibc then (setClient s { cl with frozen := true }, .ok) else (s, .msg .ibc)
     match k with
     | .submit => if canonical then (s, .ante .misbehaviourDisabled) else exec
-    | .submitNested => exec                                   -- the decorator only looks at top-level messages
+    | .submitNested => (s, .ante .nestedDisabled)             -- refused at depth ≥ 1 like a nested MsgUpdateClient
     | .viaUpdate => if canonical then (s, .ante .misbehaviourDisabled) else exec
     | .viaUpdateNested => (s, .ante .nestedDisabled)
     | .viaWrapped => (s, .ante .noSigner)
@@ -371,7 +372,11 @@ def resolveFork (s : St) (ra : Nat) (st : Core.SInfo) (cl : Client) : St × Opti
   match getDesc s ra st.start with
   | none => (s, some .internal)
   | some d =>
-    (setClient s { cl with cons := insCons st.start ⟨d.root, d.ts.getD 0, valHash st.creator⟩ cl.cons, latest := st.start, frozen := false }, none)
+    -- next validators = the sequencer of the next block (`NextSequencerForHeight`)
+    match nextSeqFor s.core st st.start with
+    | none => (s, some .internal)
+    | some q =>
+      (setClient s { cl with cons := insCons st.start ⟨d.root, d.ts.getD 0, valHash q⟩ cl.cons, latest := st.start, frozen := false }, none)
 
 /-- the ordinary path of `AfterUpdateState`: validate against optimistic headers, prune signer records -/
 def validateNew (s : St) (ra : Nat) (st : Core.SInfo) (c : Nat) (cl : Client) : St × Option LErr :=
